@@ -131,8 +131,20 @@ def run_case(case):
 
         tb = traceback.extract_tb(e.__traceback__)
         where = next((f"{f.name}" for f in reversed(tb) if "/emu_" in f.filename), "?")
-        viol.append({"key": f"C01:run-raises:{type(e).__name__}:{where}", "msg": f"{fp}: {e}"[:400]})
         cnt["runs"] += 1
+        if isinstance(e, RecursionError) and "did not converge" in str(e) and n <= 10:
+            # an honest refusal (C07): with max_krylov_dim = 100 the exponential of a step with |H|*dt >> 30 cannot be reached. It is a
+            # documented rejection when the step really is that large (user-chosen dt above the duration, strongly interacting register)
+            from emu_base.pulser_adapter import PulserData
+
+            sd_ = next(iter(PulserData(sequence=seq, config=cfg, dt=dt).get_sequences()))
+            snap_ = e2e.snapshot(sd_)
+            tt_ = snap_["target_times"]
+            amax = max(float(np.abs(np.linalg.eigvalsh(e2e.step_hamiltonian(snap_, k_, "start"))).max()) * (tt_[k_ + 1] - tt_[k_]) * 1e-3 for k_ in range(len(tt_) - 1))
+            if amax > 30:
+                cnt["rejected"] += 1
+                return {"fp": fp, "nontrivial": False, "violations": viol, "counters": cnt, "max": worst, "sample": sample}
+        viol.append({"key": f"C01:run-raises:{type(e).__name__}:{where}", "msg": f"{fp}: {e}"[:400]})
         return {"fp": fp, "nontrivial": False, "violations": viol, "counters": cnt, "max": worst, "sample": sample}
     cnt["runs"] += 1
     if len(rec) != 1:
